@@ -39,6 +39,8 @@ pub struct SimTable {
     pub view: bool,
     /// declare the scan as ordered by id (column 0) instead of k
     pub sorted_by_id: bool,
+    /// the scan is cooperative by itself, like DataFusion's StreamingTableExec
+    pub cooperative: bool,
 }
 
 #[async_trait]
@@ -83,7 +85,8 @@ impl TableProvider for SimTable {
         };
         Ok(Arc::new(
             SimSourceExec::build_view(&self.name, self.scripts.clone(), ordering, self.unbounded, proj, Arc::clone(&self.stats), self.view)
-                .with_accept_filters(self.accept_filters),
+                .with_accept_filters(self.accept_filters)
+                .with_cooperative(self.cooperative),
         ))
     }
 }
@@ -228,6 +231,7 @@ pub struct TableSpec {
     pub accept_filters: bool,
     pub view: bool,
     pub sorted_by_id: bool,
+    pub cooperative: bool,
     /// `Some((column, n))`: the table is exposed through a view whose `column` goes through the
     /// identity UDF `boom`, which fails at the evaluation that covers its n-th row (0-based)
     pub udf_fault: Option<(String, u64)>,
@@ -244,6 +248,7 @@ pub fn parse_tables(v: &Value) -> Option<Vec<TableSpec>> {
             accept_filters: t.get("filters").and_then(|x| x.as_bool()).unwrap_or(false),
             view: t.get("view").and_then(|x| x.as_bool()).unwrap_or(false),
             sorted_by_id: t.get("order").and_then(|x| x.as_str()) == Some("id"),
+            cooperative: t.get("coop").and_then(|x| x.as_bool()).unwrap_or(false),
             udf_fault: match t.get("udf_fault") {
                 None | Some(Value::Null) => None,
                 Some(f) => {
@@ -296,6 +301,7 @@ pub fn build_session(env: &EnvSpec, knobs: &Value, tables: &[TableSpec]) -> Opti
             accept_filters: t.accept_filters,
             view: t.view,
             sorted_by_id: t.sorted_by_id,
+            cooperative: t.cooperative,
         };
         match &t.udf_fault {
             None => {
@@ -429,7 +435,34 @@ pub struct Executed {
 
 /// Plans `sql` through the real parser, planner and optimizers.
 pub async fn plan_sql(ctx: &SessionContext, sql: &str) -> Result<Arc<dyn ExecutionPlan>> {
-    ctx.sql(sql).await?.create_physical_plan().await
+    let plan = ctx.sql(sql).await?.create_physical_plan().await?;
+    probe_plan(&plan);
+    Ok(plan)
+}
+
+/// Reach measurement: one probe per operator kind in the executed plan (`probe.op.<Name>[mode...]`),
+/// so the evidence shows which operators and operator modes the generated queries really ran.
+pub fn probe_plan(plan: &Arc<dyn ExecutionPlan>) {
+    let line = datafusion_physical_plan::displayable(plan.as_ref()).one_line().to_string();
+    let mut key = format!("probe.op.{}", plan.name());
+    for attr in ["mode=", "ordering_mode=", "join_type=", "partitioning=", "preserve_order=", "TopK(fetch", "sort_exprs="] {
+        if let Some(i) = line.find(attr) {
+            if attr == "TopK(fetch" {
+                key.push_str(" topk");
+                continue;
+            }
+            if attr == "sort_exprs=" {
+                continue;
+            }
+            let rest = &line[i + attr.len()..];
+            let end = rest.find(|c: char| c == ',' || c == '(' || c == ' ' || c == ']' || c == '\n').unwrap_or(rest.len());
+            key.push_str(&format!(" {attr}{}", &rest[..end]));
+        }
+    }
+    sim::probe(&key);
+    for c in plan.children() {
+        probe_plan(c);
+    }
 }
 
 /// Plans and executes `sql`. With `drop_after = Some(k)` the output is abandoned after k batches.
